@@ -65,12 +65,16 @@ SOURCES8 = ["sense_and_sensibility_01_austen_64kb-0880.wav"]
 
 
 def gen_audio(rng, samprate, stats):
-    kind = rng.weighted([("whole", 22), ("clip", 18), ("reverse", 10), ("noise", 10), ("quiet", 8), ("tiny", 16),
+    kind = rng.weighted([("whole", 22), ("cutoff", 12), ("clip", 14), ("reverse", 10), ("noise", 10), ("quiet", 8), ("tiny", 16),
                          ("concat", 8), ("loud", 4), ("empty", 4)])
     stats["audio"][kind] = stats["audio"].get(kind, 0) + 1
     srcs = SOURCES8 + SOURCES16[:1] if samprate == 8000 else SOURCES16 + (SOURCES8 if rng.chance(0.1) else [])
     src = rng.choice(srcs)
     n = len(source_samples(src))
+    if kind == "cutoff":   # the recording cut before its last word(s): a path survives but not to the final state
+        src = "sense_and_sensibility_01_austen_64kb-0880.wav" if samprate == 8000 else rng.choice(["goforward.raw", "goforward_fr.raw"])
+        n = len(source_samples(src))
+        return [{"src": src, "a": 0, "b": rng.range(n // 4, (n * 3) // 4)}]
     if kind == "whole":
         return [{"src": src}]
     if kind == "clip":
@@ -216,6 +220,36 @@ def gen_align(rng, lang, feats):
     return rng.choice(["", " "]) + sep.join(pick_word(rng, lang) for _ in range(rng.range(1, 6))) + rng.choice(["", "\n"])
 
 
+def word_swap(rng, lang):
+    """a fixed-point-free renaming of the vocabulary (every word becomes a different word)"""
+    w, alt, short = vocab_for(lang)
+    allw = sorted(set(w + alt + short))
+    k = rng.range(1, len(allw) - 1)
+    return {x: allw[(i + k) % len(allw)] for i, x in enumerate(allw)}
+
+
+def sibling_grammar(rng, lang, gram, stats):
+    """a different grammar with the same name and the same number of states as `gram`: the same text with
+    every word renamed (JSGF: same grammar/rule names; FSG: same FSG_BEGIN name, NUM_STATES, structure)"""
+    m = word_swap(rng, lang)
+    stats["features"]["sibling_" + gram["kind"]] = stats["features"].get("sibling_" + gram["kind"], 0) + 1
+    if gram["kind"] == "align":
+        toks = re.split(r"(\s+)", gram["text"])
+        return {"kind": "align", "text": "".join(m.get(t, t) for t in toks)}
+    out = []
+    for line in gram["text"].split("\n"):
+        if line.startswith(("#JSGF", "grammar ", "FSG_BEGIN", "NUM_STATES", "START_STATE", "FINAL_STATE", "FSG_END")):
+            out.append(line)
+        elif gram["kind"] == "fsg":
+            t = line.split(" ")
+            if len(t) == 5:
+                t[4] = m.get(t[4], t[4])
+            out.append(" ".join(t))
+        else:
+            out.append(" ".join(m.get(t, t) for t in line.split(" ")))
+    return {"kind": gram["kind"], "text": "\n".join(out)}
+
+
 def gen_grammar(rng, lang, stats):
     kind = rng.weighted([("jsgf", 6), ("fsg", 3), ("align", 2)])
     stats["grammar"][kind] = stats["grammar"].get(kind, 0) + 1
@@ -335,21 +369,39 @@ def gen_plan(rng, nsamp, stats):
         ops.append(["proc", c, ns, fu, f32])
         if i in marks and i != len(chunks) - 1:
             ops.append(["dump", f"mid{i}"])
-    if rng.chance(0.3) and chunks:
+    # a query right before decoder_end_utt: in full-utterance mode (and whenever the last call leaves nothing
+    # to search) end_utt adds no frame, so the "partial" and the "final" query see the same frame count
+    if chunks and (style == "full" or rng.chance(0.45)):
         ops.append(["dump", "preend"])
     ops.append("end")
     ops.append(["dump", "fin"])
+    if rng.chance(0.2):
+        ops.append(["dump", "fin2"])      # asking twice must not change the answer
     return ops
 
 
 def gen_case(rng, stats, thorough):
     cfg, lang = gen_config(rng, stats, thorough)
     units = []
-    for _ in range(rng.weighted([(1, 6), (2, 3), (3, 1)])):
-        gram = gen_grammar(rng, lang, stats)
+    # "siblings": several DIFFERENT grammars on one decoder that share name and state count, decoded on the
+    # same audio — every utterance is judged against the grammar set for THAT utterance
+    siblings = rng.chance(0.3)
+    stats["features"]["sibling_cases"] = stats["features"].get("sibling_cases", 0) + (1 if siblings else 0)
+    nunits = rng.weighted([(2, 5), (3, 3), (4, 1)]) if siblings else rng.weighted([(1, 6), (2, 3), (3, 1)])
+    shared_audio = None
+    for ui in range(nunits):
+        if siblings and ui > 0:
+            gram = sibling_grammar(rng, lang, units[0]["grammar"], stats) if rng.chance(0.8) else units[0]["grammar"]
+        else:
+            gram = gen_grammar(rng, lang, stats)
         utts = []
         for _ in range(rng.weighted([(1, 7), (2, 2)])):
-            audio = gen_audio(rng, int(cfg.get("samprate", 16000)), stats)
+            if siblings and shared_audio is not None and rng.chance(0.8):
+                audio = shared_audio
+            else:
+                audio = gen_audio(rng, int(cfg.get("samprate", 16000)), stats)
+            if siblings and shared_audio is None:
+                shared_audio = audio
             n = len(render_audio(audio)) // 2
             utts.append({"audio": audio, "plan": gen_plan(rng, n, stats)})
         units.append({"grammar": gram, "utts": utts})
